@@ -27,5 +27,6 @@ PROPS = {
                        'specification predicate vring_need_event for all index values incl. wrap-around',
     },
     'C01': {'level': 'proof', 'units': ['queue'], 'kani_quick': [], 'kani_thorough': []},
+    'C04': {'level': 'proof', 'units': ['queue'], 'kani_quick': [], 'kani_thorough': []},
     'C03': {'level': 'proof', 'units': ['queue'], 'kani_quick': [], 'kani_thorough': []},
 }
